@@ -18,7 +18,8 @@ RULE = ("lists of 1..5 random well-formed trees (2..12 tips, rooted / unrooted /
         "the three formats (plain, digits only, UTF-8, punctuation other than blanks = quotes < > & and the Newick "
         "metacharacters) on one common taxon set or (10%) on differing taxon sets; translate on/off; layout of the Newick "
         "file: one tree per line, blank lines, whitespace-only lines, trailing blanks, CRLF, no final newline, trees "
-        "broken over several lines after each comma, two trees on one line; files of 5..40 KB (2..5 trees of 100..330 tips with "
+        "broken over several lines after each comma, or (layout brkbefore) with LF / CRLF right after labels and numbers, i.e. before "
+        "every n-th ',' ')' ':' (single reader against the multi reader), two trees on one line; files of 5..40 KB (2..5 trees of 100..330 tips with "
         "lengths) wrapped at random commas so that statements straddle the refills of bufio's 4096-byte buffer; every list is "
         "a deterministic buffer-boundary stream (the ';' ending a tree, the blank/tab/CR/LF after it, the '(' of the next tree at "
         "byte B-2..B+1 of a line longer than bufio's buffer, B = 4096, 8192, 65536 thorough; three trees per file, also as second "
@@ -31,7 +32,7 @@ RULE = ("lists of 1..5 random well-formed trees (2..12 tips, rooted / unrooted /
         "document -> tree, document -> WritePhyloXML -> tree (oracle: name, length and support of every clade), document -> "
         "Newick / Nexus -> tree (oracle: the tree without the supports that Newick cannot print beside a name; the rest by "
         "correspondence), single-tree accessor on the document; 30% of the lists are also rendered here as a Nexus file whose TREE "
-        "statements are spread over two or three TREES blocks (empty blocks included; no TRANSLATE table, the same one in every block, in "
+        "statements are spread over two or three TREES blocks (empty blocks included; blocks closed with END; or ENDBLOCK;, unsupported blocks closed either way before / between / after; no TRANSLATE table, the same one in every block, in "
         "the first only, or one per block with the same keys 1..n for the taxa in another order; TAXA block before / between) and read with the multi-tree and the single-tree reader (oracle: every tree "
         "in file order, or an error record); the command line (extra): `gotree reformat newick|nexus|nexus --translate|phyloxml -i IN [-o OUT]` on 6 lists (60 thorough) with "
         "OUT fresh / an existing longer file / an existing shorter file / stdout (byte-identical), input from file and stdin, output "
@@ -67,7 +68,7 @@ MATCHERS = {
 
 LEGAL = ["A", "B", "Homo_sapiens", "x1", "Taxon-7", "a.b", "12", "0", "7", "+5", "-3", "é", "α", "naïve", "a|b", "x/y", "100%", "_", "#1",
          "ends", "treees", "T", "F", "U", "N", "D", "e5", "1e5", "0x", "a{1}", "x*", "a\\b", "begin_", "nexus", "tax", "k~v", "a^b", "`q`", "a!b?", "@home", "$1"]
-KEYWORDS = ["end", "END", "tree", "Trees", "gap", "data", "#NEXUS", "matrix", "taxlabelſ", "mıssıng", "begin", "format", "translate", "ntax",
+KEYWORDS = ["end", "END", "endblock", "EndBlock", "tree", "Trees", "gap", "data", "#NEXUS", "matrix", "taxlabelſ", "mıssıng", "begin", "format", "translate", "ntax",
             "dimensions", "characters", "datatype", "nchar", "taxa", "taxlabels", "missing"]
 
 def names_for(rng, n, illegal=False):
@@ -253,9 +254,12 @@ def nx_doc(rng, trees, same_taxa):
                 tips.append(x["name"])
     idx = {n: str(i + 1) for i, n in enumerate(tips)}
     order = list(tips)
-    taxa = "BEGIN TAXA;\n DIMENSIONS NTAX=%d;\n TAXLABELS %s;\nEND;\n" % (len(tips), " ".join(tips))
+    # END; or its other spelling ENDBLOCK; closes a block; unsupported blocks closed either way before / between / after
+    endw = lambda: rng.choice(["END;", "END;", "ENDBLOCK;", "EndBlock;", "endblock ;"])
+    foo = lambda: rng.choice(["", "", "BEGIN FOO;\n x y;\n%s\n" % endw(), "BEGIN NOTES;\n TEXT a=b;\n [c]\nENDBLOCK;\n"])
+    taxa = "BEGIN TAXA;\n DIMENSIONS NTAX=%d;\n TAXLABELS %s;\n%s\n" % (len(tips), " ".join(tips), endw())
     where = rng.choice(["", "", "before", "between"]) if same_taxa else ""
-    out = ["#NEXUS\n"]
+    out = ["#NEXUS\n", foo()]
     if where == "before":
         out.append(taxa)
     seen_nonempty = False
@@ -276,7 +280,7 @@ def nx_doc(rng, trees, same_taxa):
             out.append(" TREE tree%d = %s\n" % (i, newick(t)))
         if g:
             seen_nonempty = True
-        out.append("END;\n")
+        out.append(endw() + "\n" + foo())
         if bi == 0 and where == "between":
             out.append(taxa)
     return "".join(out), "%s/%s" % ("-".join(str(len(g)) for g in groups), tables)
@@ -290,7 +294,7 @@ def ns_json(t):
         return d
     return _json.dumps({"version": "v2", "meta": {}, "tree": node(t, 0.0)}, ensure_ascii=False)
 
-LAYOUTS = ["lines", "lines", "lines", "blank", "wsline", "trail", "crlf", "nofinal", "breaks", "sameline", "sameline"]
+LAYOUTS = ["lines", "lines", "lines", "blank", "wsline", "trail", "crlf", "nofinal", "breaks", "brkbefore", "brkbefore", "sameline", "sameline"]
 
 def seps_for(rng, layout, k):
     if layout == "blank":
@@ -417,11 +421,17 @@ def gen(rng, tier):
             born = "phyloxml"
             for t in trees:
                 px_born(rng, t, numbers)
-        layout = rng.choice(LAYOUTS) if k > 1 else rng.choice(["lines", "nofinal", "trail", "breaks", "crlf"])
+        layout = rng.choice(LAYOUTS) if k > 1 else rng.choice(["lines", "nofinal", "trail", "breaks", "brkbefore", "brkbefore", "crlf"])
         if layout == "sameline" and k < 2:
             layout = "lines"
         o = {"trees": [T(t) for t in trees], "translate": rng.random() < 0.5, "seps": seps_for(rng, layout, k),
              "breaks": layout == "breaks", "nsjson": ns_json(trees[0]), "pxdoc": px_doc(rng, trees)}
+        if layout == "brkbefore":
+            # a line break (LF or CRLF) right after labels and numbers: before every n-th ',' ')' ':' of the file
+            o["brk_before"] = rng.choice(["\n", "\n", "\r\n"])
+            o["brk_every"] = rng.choice([1, 1, 2, 3, 5])
+            if o["brk_before"] == "\r\n":
+                o["seps"] = ["\r\n"] * k
         blocks = None
         if rng.random() < 0.3:
             o["nxdoc"], blocks = nx_doc(rng, trees, not differ)
